@@ -41,13 +41,19 @@ def extras(ctx):
                 ex.recv("D", seq=exp + rng.randint(1, 3), ident=k + 1)
             elif r < 0.6:
                 lo = max(1, exp - rng.randint(1, 2))
-                dup = rng.random() < 0.6
+                dup = rng.choice([True, True, False, "N"])      # "N": PossDupFlag present with value N
                 orig = None
                 if dup:
                     orig = ex.now + rng.choice([-5, 0, 5])
                 ex.recv("D", seq=lo, possdup=dup, orig=orig, ident=k + 1)
             elif r < 0.7:
-                ex.recv("D", ident=k + 1, sender=rng.choice(["EVIL", ex.cfg["target"]]), target=rng.choice(["OTHER", ex.cfg["sender"]]))
+                # wrong CompIDs on an in-sequence, too-high or too-low application message or on a SequenceReset
+                q = rng.choice([None, None, exp + 2, max(1, exp - 1)])
+                snd, tgt = rng.choice([("EVIL", None), (None, "OTHER"), ("EVIL", "OTHER")])
+                if rng.random() < 0.2:
+                    ex.recv("4", seq=q, body=[(123, "Y"), (36, exp + 3)], sender=snd, target=tgt)
+                else:
+                    ex.recv("D", seq=q, ident=k + 1, sender=snd, target=tgt)
             elif r < 0.8:
                 ex.recv("D", ident=k + 1, valid=False, why="checksum", bad_checksum=True)
             elif r < 0.88:
